@@ -758,4 +758,195 @@ theorem children_park (n K i : Nat) : ∀ (us : List Watcher) (idx : Nat) (resul
         ih (idx + 1) (results ++ [(idx, Val.unit)]) P s1 hB1 hd1 hA1 hnd'.2 hus1 (by simp at hidx ⊢; omega) hpark1
       exact ⟨results', P', s', hloop, hB', hd', hA', hP', hgo, hgr, ha', Nat.zero_le _⟩
 
+/-! ## Part 3: the check with several watchers, some of them missing workers -/
+
+/-- nothing is in flight; every watcher object is registered, in list order -/
+structure IdleK (s : State) : Prop where
+  frames : s.frames = []
+  sleepers : s.sleepers = []
+  tops : s.tops = []
+  ready : s.ready = []
+  slot : s.a.slot = none
+  loopStop : s.a.loopStop = false
+  stopping : s.a.stopping = false
+  restarting : s.a.restarting = false
+  watchers : s.a.watchers = s.ws.map (·.uid)
+
+def pkIds (P : List PK) : List Nat := P.flatMap fun p => [p.mt, p.sl]
+
+/-- the check is parked in the `spawn_processes` loops of the watchers `P`: the frames of `manage_watchers` and its
+    `gen.multi` (with the results of the watchers that are done), and — in whatever order the timer firings have
+    left them — for each parked watcher the frame of `manage_processes`' continuation, the frame of its loop and
+    the timer of the latter; the future of the check with its two callbacks; the slot taken -/
+structure ParkedK (K i : Nat) (results : List (Nat × Val)) (P : List PK) (s : State) : Prop where
+  frames : ∃ rest, s.frames = { fid := i + 1, k := .manageWatchersTail false, parent := .top i, armed := true } ::
+    { fid := i + 2, k := .multi K results, parent := .frame (i + 1) 0, armed := true } :: rest ∧ rest.Perm (pkFrames i P)
+  sleepers : s.sleepers.Perm (P.map PK.timer)
+  tops : s.tops = [{ tid := i, cbs := [.release, .watch], armed := true }]
+  ready : s.ready = []
+  count : results.length + P.length = K
+  units : ∀ r ∈ results, r.2 = Val.unit
+  ids : ∀ p ∈ P, i + 2 < p.mt ∧ i + 2 < p.sl ∧ p.mt < s.nextId ∧ p.sl < s.nextId ∧ p.sid < s.nextId
+  nodupF : (pkIds P).Nodup
+  nodupS : (P.map (·.sid)).Nodup
+  slot : s.a.slot = some "manage_watchers"
+  loopStop : s.a.loopStop = false
+  stopping : s.a.stopping = false
+  restarting : s.a.restarting = false
+  watchers : s.a.watchers = s.ws.map (·.uid)
+  sockReady : True
+
+theorem pkIds_nodup_of_sorted (P : List PK) (hids : ∀ p ∈ P, p.mt < p.sl ∧ p.sl < p.sid)
+    (hs : P.Pairwise (fun p q => p.sid < q.mt)) : (pkIds P).Nodup ∧ (P.map (·.sid)).Nodup := by
+  induction P with
+  | nil => exact ⟨by simp [pkIds], by simp⟩
+  | cons p r ih =>
+    have hp := List.pairwise_cons.mp hs
+    obtain ⟨h1, h2⟩ := ih (fun q hq => hids q (by simp [hq])) hp.2
+    have hpi := hids p (by simp)
+    constructor
+    · show ([p.mt, p.sl] ++ pkIds r).Nodup
+      apply List.nodup_append.mpr
+      refine ⟨by simp; omega, h1, ?_⟩
+      intro a ha b hb hab
+      subst hab
+      simp only [pkIds, List.mem_flatMap, List.mem_cons, List.mem_nil_iff, or_false] at hb
+      obtain ⟨q, hq, hbq⟩ := hb
+      have := hp.1 q hq
+      have := hids q (by simp [hq])
+      simp only [List.mem_cons, List.mem_nil_iff, or_false] at ha
+      rcases ha with rfl | rfl <;> rcases hbq with h | h <;> omega
+    · simp only [List.map_cons]
+      apply List.nodup_cons.mpr
+      refine ⟨?_, h2⟩
+      intro hm
+      obtain ⟨q, hq, hqs⟩ := List.mem_map.mp hm
+      have := hp.1 q hq
+      have := hids q (by simp [hq])
+      omega
+
+theorem map_arm_pkFrames {i x : Nat} {P : List PK} (hx : ∀ g ∈ pkFrames i P, g.fid ≠ x) :
+    (pkFrames i P).map (fun g => if g.fid = x then { g with armed := true } else g) = pkFrames i P := by
+  conv => rhs; rw [← List.map_id (pkFrames i P)]
+  apply List.map_congr_left
+  intro g hg
+  simp [hx g hg]
+
+/-- **the periodic check with several watchers, at least one of them missing workers**: nothing to reap; every
+    watcher that misses workers spawns its first missing one and parks its `spawn_processes` loop on its own timer;
+    the complete ones are done; the check stays parked with the slot taken; as many timer firings remain as
+    workers were missing -/
+theorem check_parks_K (s : State) (hi : IdleK s) (hd : DatK s) (hle : ∀ w ∈ s.ws, w.pids.length ≤ w.np.toNat)
+    (hmiss : ∃ w ∈ s.ws, w.pids.length < w.np.toNat) :
+    ∃ results P, ParkedK s.ws.length s.nextId results P (step s .check) ∧ DatK (step s .check) ∧
+      Acct [] P (step s .check) ∧ P ≠ [] ∧ toGo P (step s .check) = (s.ws.map missing).sum ∧ Grow s.ws (step s .check).ws := by
+  have hd0 := hd
+  obtain ⟨hb, hk, hn, hall⟩ := hd
+  obtain ⟨hfr, hsl, htops, hrd, hslot, hls, hstp, hrst, hwat⟩ := hi
+  obtain ⟨k, a, objs, ws, frames, sleepers, tops, ready, dv, i, log, blocked⟩ := s
+  simp only at hb hk hn hall hfr hsl htops hrd hslot hls hstp hrst hwat hle hmiss
+  subst hb hfr hsl htops hrd
+  -- the watchers in `iter_watchers()` order
+  have hperm := sortWatchers_perm ws true
+  have hord_mem : ∀ w ∈ sortWatchers ws true, w ∈ ws := fun w hw => hperm.mem_iff.mp hw
+  have hord_nd : ((sortWatchers ws true).map (·.uid)).Nodup := (hperm.map (·.uid)).nodup_iff.mpr hn
+  have hord_len : (sortWatchers ws true).length = ws.length := hperm.length_eq
+  have hne : (sortWatchers ws true).map (fun w => Call.manageProcesses w.uid) ≠ [] := by
+    obtain ⟨w, hw, _⟩ := hmiss
+    have : w ∈ sortWatchers ws true := hperm.mem_iff.mpr hw
+    intro h
+    have h2 := congrArg List.length h
+    simp only [List.length_map, List.length_nil] at h2
+    have := List.length_pos_of_mem this
+    omega
+  -- the state in which the children of the gen.multi start
+  let S2 : State := ⟨k.beginStep.bump 1, { a with slot := some "manage_watchers" }, objs, ws,
+    [{ fid := i + 1, k := .manageWatchersTail false, parent := .top i },
+     { fid := i + 2, k := .multi ws.length [], parent := .frame (i + 1) 0 }], [],
+    [{ tid := i, cbs := [.release] }], [], [], i + 3, log, false⟩
+  have hB2 : Building ws.length i 0 [] [] S2 :=
+    ⟨rfl, rfl, rfl, rfl, rfl, rfl, (fun r hr => by cases hr), Nat.le_refl _, (fun p hp => by cases hp), List.Pairwise.nil, rfl,
+      hls, hstp, hrst⟩
+  have hd2 : DatK S2 := ⟨rfl, hk.beginStep.bump 1, hn, hall⟩
+  have hA2 : Acct ((sortWatchers ws true).map (·.uid)) [] S2 := by
+    refine ⟨(fun p hp => by cases hp), (by simp), ?_, (fun p hp => by cases hp)⟩
+    intro w hw hnt _
+    exfalso
+    exact hnt (List.mem_map_of_mem (hperm.mem_iff.mpr hw))
+  obtain ⟨results, P, s', hloop, hB', hd', hA', hP', hgo, hgr, ha', _⟩ :=
+    children_park 99997 ws.length i (sortWatchers ws true) 0 [] [] S2 hB2 hd2 hA2 hord_nd
+      (fun w hw => ⟨hord_mem w hw, hle w (hord_mem w hw)⟩) (by omega)
+      (Or.inr (by obtain ⟨w, hw, hwl⟩ := hmiss; exact ⟨w, hperm.mem_iff.mpr hw, hwl⟩))
+  have hpkne := pkFrames_fid_ne (i := i) (P := P) (fun p hp => ⟨(hB'.ids p hp).1, (hB'.ids p hp).2.1⟩)
+  -- the step
+  have hop : stepOp .check (updK Kernel.beginStep (⟨k, a, objs, ws, [], [], [], [], dv, i, log, false⟩ : State)).2 =
+      ((), (⟨s'.k, s'.a, s'.objs, s'.ws,
+        { fid := i + 1, k := .manageWatchersTail false, parent := .top i, armed := true } ::
+          { fid := i + 2, k := .multi ws.length results, parent := .frame (i + 1) 0, armed := true } :: pkFrames i P,
+        s'.sleepers, [{ tid := i, cbs := [.release, .watch], armed := true }], s'.ready, s'.doneVals, s'.nextId, s'.log,
+        s'.blocked⟩ : State)) := by
+    simp only [stepOp, bind, clearDone, modS, updK, runK]
+    rw [syncCoroutine_free _ _ _ hrst hslot]
+    simp only [fuelDefault]
+    have e1 : (100000 : Nat) = 99999 + 1 := rfl
+    rw [e1, exec_call_mk]
+    simp only [runCall, List.nil_append]
+    rw [manageWatchers_eq_K (exec 99999) _ _ ⟨rfl, hk.beginStep, hn, hall⟩ hstp hwat]
+    rw [awaitMulti_ne _ _ hne]
+    simp only [List.length_map, hord_len, List.nil_append]
+    have hS2 : (⟨k.beginStep.bump 1, { a with slot := some "manage_watchers" }, objs, ws,
+        [{ fid := i + 1, k := .manageWatchersTail false, parent := .top i },
+         { fid := i + 1 + 1, k := .multi ws.length [], parent := .frame (i + 1) 0 }],
+        [], [{ tid := i, cbs := [.release] }], [], [], i + 1 + 2, log, false⟩ : State) = S2 := rfl
+    rw [hS2]
+    erw [hloop]
+    simp only [armFrame, armTop, addDoneCallback, modS, bind, getS, hB'.frames, hB'.tops, List.map_cons, List.map_nil,
+      List.find?_cons, decide_true, Option.isSome_some, if_true, topAddCb]
+    have h1 : ¬ i + 1 = i + 1 + 1 := by omega
+    have h2 : ¬ i + 2 = i + 1 := by omega
+    simp only [h1, h2, if_false, if_true, show i + 1 + 1 = i + 2 from rfl, List.nil_append, List.cons_append,
+      map_arm_pkFrames (fun g hg => (hpkne g hg).1), map_arm_pkFrames (fun g hg => (hpkne g hg).2)]
+    erw [if_pos (by simp [hB'.tops])]
+    simp [modS]
+  let F : State := ⟨s'.k, s'.a, s'.objs, s'.ws,
+    { fid := i + 1, k := .manageWatchersTail false, parent := .top i, armed := true } ::
+      { fid := i + 2, k := .multi ws.length results, parent := .frame (i + 1) 0, armed := true } :: pkFrames i P,
+    s'.sleepers, [{ tid := i, cbs := [.release, .watch], armed := true }], s'.ready, s'.doneVals, s'.nextId, s'.log,
+    s'.blocked⟩
+  have hFb : F.blocked = false := hd'.1
+  have hstep : stepM .check (⟨k, a, objs, ws, [], [], [], [], dv, i, log, false⟩ : State) = ((), F) := by
+    rw [stepM_eq _ _ rfl, hop]
+    have hs : settle 100000 F = ((), F) := settle_nil 99999 F hB'.ready
+    rw [stepTail_eq _ (by rw [hs]; show s'.a.loopStop = false; exact hB'.loopStop), hs]
+  have hres : step (⟨k, a, objs, ws, [], [], [], [], dv, i, log, false⟩ : State) .check = F := by
+    unfold step; rw [hstep]
+  rw [hres]
+  obtain ⟨hnF, hnS⟩ := pkIds_nodup_of_sorted P (fun p hp => ⟨(hB'.ids p hp).2.1, (hB'.ids p hp).2.2.1⟩) hB'.sorted
+  have hgr' : Grow ws s'.ws := hgr
+  have hwat' : s'.a.watchers = s'.ws.map (·.uid) := by
+    rw [ha']
+    show a.watchers = _
+    rw [hwat]
+    -- the watchers keep their identities
+    have : ∀ {x y : List Watcher}, Grow x y → y.map (·.uid) = x.map (·.uid) := by
+      intro x y h
+      induction h with
+      | nil => rfl
+      | cons w e _ ih => simp [ih]
+    exact (this hgr').symm
+  refine ⟨results, P, ⟨⟨pkFrames i P, rfl, List.Perm.refl _⟩, ?_, rfl, hB'.ready, hB'.count, hB'.units, ?_, hnF, hnS,
+    hB'.slot, hB'.loopStop, hB'.stopping, hB'.restarting, hwat', trivial⟩, ?_, ?_, hP', ?_, hgr'⟩
+  · show s'.sleepers.Perm _
+    rw [hB'.sleepers]
+  · intro p hp
+    have := hB'.ids p hp
+    show i + 2 < p.mt ∧ i + 2 < p.sl ∧ p.mt < s'.nextId ∧ p.sl < s'.nextId ∧ p.sid < s'.nextId
+    omega
+  · exact hd'.of_kernel hd'.2.1 rfl rfl rfl
+  · exact ⟨hA'.parked, hA'.nodupU, hA'.full, hA'.notyet⟩
+  · show toGo P F = _
+    have : toGo P F = toGo P s' := rfl
+    rw [this, hgo]
+    simp [toGo, S2]
+
 end Circus.Core
